@@ -1496,7 +1496,7 @@ def setup(ctx):
 
 
 def strata(ctx):
-    n = ctx.n(1, 40)
+    n = ctx.n(1, 32)
     return [("exact", 110 * n), ("float", 60 * n), ("keywords", 40 * n), ("initname", 15 * n), ("mixed", 15 * n),
             ("srefkw", 12 * n), ("compkw", 6 * n), ("digits", 12 * n), ("gennames", 24 * n), ("rewrite", 20 * n), ("gencollide", 24 * n), ("sparse", 12 * n), ("nearequal", 24 * n), ("idcollide", 6 * n), ("boolnum", 6 * n), ("boundary", 20 * n)]
 
